@@ -45,20 +45,28 @@ class SimFile(object):
             raise TypeError("write() argument must be str, not %s" % type(s).__name__)
         self.buf += s
         if len(self.buf) >= BUFSIZE:
-            self._flush()
+            self._flush(may_fail=True)
         return len(s)
 
-    def _flush(self):
+    def _flush(self, may_fail=False):
         if self.buf:
             ino = self.fs.files[self.name]
-            ino.cache += self.buf.encode("utf-8")
+            if may_fail and self.fs._io_error_due("flush"):
+                # ENOSPC/EIO from write(2): a prefix of the buffered bytes may have reached the file, the
+                # rest stays in the buffered writer (CPython keeps it and retries at the next flush)
+                data = self.buf.encode("utf-8", "surrogateescape")
+                k = min(len(data), self.fs.io_partial or 0)
+                ino.cache += data[:k]
+                self.buf = data[k:].decode("utf-8", "surrogateescape")
+                raise OSError(self.fs.io_errno, "injected I/O error (write)")
+            ino.cache += self.buf.encode("utf-8", "surrogateescape")
             self.buf = ""
 
     def flush(self):
         self.fs._call("flush", self.name)
         if self.closed:
             raise ValueError("I/O operation on closed file.")
-        self._flush()
+        self._flush(may_fail=True)
 
     def fileno(self):
         return self.fd
@@ -150,6 +158,9 @@ class _OS(object):
         f = self.fs.open_files.get(fd)
         if f is None:
             raise OSError(9, "Bad file descriptor")
+        if self.fs._io_error_due("fsync"):
+            # the data stay in the page cache, nothing new became durable
+            raise OSError(self.fs.io_errno, "injected I/O error (fsync)")
         ino = self.fs.files[f.name]
         ino.durable = ino.cache
         ino.entry_durable = True
@@ -183,6 +194,10 @@ class SimFS(object):
         self.acked = []            # (path, line) of every record made durable by a completed fsync
         self.call_log = []
         self.counts = {}
+        self.io_armed = None       # I/O error at the first flush/fsync whose call number is >= this
+        self.io_errno = 28
+        self.io_partial = 0
+        self.io_errors = []        # (call number, 'flush'|'fsync', errno)
 
     # ---- plumbing
     def norm(self, p):
@@ -202,6 +217,18 @@ class SimFS(object):
             self.armed = None
             self.crash_call = what
             raise Crash(what)
+
+    def arm_io_error(self, after_calls, errno=28, partial=0):
+        self.io_armed = self.calls + max(1, int(after_calls))
+        self.io_errno = int(errno)
+        self.io_partial = max(0, int(partial))
+
+    def _io_error_due(self, what):
+        if self.io_armed is not None and self.calls >= self.io_armed:
+            self.io_armed = None
+            self.io_errors.append((self.calls, what, self.io_errno))
+            return True
+        return False
 
     def open(self, path, mode="r", *a, **kw):
         self._call("open", path)
